@@ -21,7 +21,14 @@ not-a-rule / sampled collection documents, stored under seeded file names (sub-d
 `load_ruleset` as an explicit file list in the case's order (independent of the alphabetical order of the names), as the
 directory, or as sub-directory + remaining files; all orders of 2 and 3 out of four broken files exhaustively.  Strict loading
 raises the first error of the first broken input, so that error must head the collected list whatever the files are called.
-The compared identity of an error now includes its source location (`SigmaError.__eq__`: class, arguments, source)."""
+The compared identity of an error now includes its source location (`SigmaError.__eq__`: class, arguments, source).
+
+Cross-field stream (`CROSS`, former finding D8i - repaired in sigma/correlations.py: `__post_init__(collect_errors)` appends the error
+of `_validate()` in collecting mode): correlation rules whose only defect is an inconsistency BETWEEN fields (a value_* type whose
+condition names no field, a non-temporal type without condition, an extended condition that does not mention a listed rule / mentions
+an unlisted one, an extended condition on a non-temporal type), alone and combined with every single-error mutation of `ERR1["corr"]`,
+as document, one-document collection (with and without reference resolution) and one-file rule set.  They are judged like every other
+document: collecting mode must return, and the first collected error must be the one strict loading raises."""
 from __future__ import annotations
 import copy, os, random, sys
 from .common import WORK, Verdict, outcome_of_exception, cps
@@ -43,7 +50,10 @@ RULE = ("stream 1: three valid base documents per kind (rule, correlation, filte
         "; round 5: documents with two independent errors (all pairs of a single-error mutation table per kind) as document / collection / one-file rule set; "
         "rule sets of 2..4 files {valid, broken once, broken twice, not a rule, sampled collection} under seeded file names and sub-directories, given as explicit "
         "file list in any order / directory / sub-directory + files (all orders of 2 and 3 of four broken files exhaustively); the error identity compared "
-        "includes the source location")
+        "includes the source location"
+        "; cross-field stream: correlation rules whose only defect is an inconsistency between fields (value_* type without field, non-temporal type "
+        "without condition, extended condition / rules list mismatches, extended condition on a non-temporal type) alone and with one further "
+        "single-error mutation, as document / collection / collection with reference resolution / one-file rule set")
 ASSUMPTIONS = [
     "documents are YAML-representable Python values (no custom tags); loading goes through from_dict / SigmaCollection.from_dicts",
     "'the same error' = same exception class and same message text",
@@ -287,6 +297,51 @@ ERR1 = {
 FILE_NAMES = ["a.yml", "b.yml", "m.yml", "z.yml", "B.yml", "0.yml", "_x.yml", "sub/c.yml", "sub/y.yml", "zz/a.yml", "zz/n.yml", "10.yml", "9.yml"]
 
 
+def _xcorr(ctype, rules, cond, **kw):
+    """a complete, otherwise valid correlation rule document (all optional attributes of the first base) with the given section"""
+    d = copy.deepcopy(BASES["corr"][0])
+    c = {"type": ctype, "group-by": ["u"], "timespan": "5m", "generate": True}
+    if rules is not None:
+        c["rules"] = rules
+    if cond is not None:
+        c["condition"] = cond
+    d["correlation"] = c
+    d.update(kw)
+    return d
+
+
+# correlation rules whose only defect is a cross-field inconsistency (what the constructor's `_validate` checks, and the checks of
+# from_dict that depend on two fields); the last entries are the consistent neighbours (they load)
+CROSS = (
+    [_xcorr(t, ["r1"], {"gte": 1}) for t in ("value_count", "value_sum", "value_avg", "value_percentile", "value_median")] +   # no field
+    [_xcorr("value_count", ["r1"], {"gte": 1, "field": None}), _xcorr("value_percentile", "r1", {"gt": 1, "percentile": 95}),
+     _xcorr("event_count", ["r1"], None), _xcorr("value_count", ["r1"], None), _xcorr("value_sum", None, None),                  # non-temporal, no condition
+     _xcorr("event_count", None, {"gte": 1}), _xcorr("value_avg", None, {"gte": 1, "field": "f"}),                               # non-temporal, no rules
+     _xcorr("temporal", ["r1", "r2"], "r1"), _xcorr("temporal_ordered", ["r1", "r2", "r3"], "r1 and not r3"),                    # listed, not mentioned
+     _xcorr("temporal", ["r1"], "r1 and r2"), _xcorr("temporal_ordered", ["r1"], "(r1 or r2) and r3"),                           # mentioned, not listed
+     _xcorr("temporal", ["r1", "r2"], "r3 or r4"), _xcorr("temporal", "r1", "r2"),
+     _xcorr("event_count", ["r1", "r2"], "r1 and r2"), _xcorr("value_count", ["r1", "r2"], "r1 and r2"),                         # extended, non-temporal
+     _xcorr("value_median", None, "r1 and r2"), _xcorr("event_count", None, "r1"),
+     _xcorr("temporal", ["r1", "r2"], "r1 and r2"), _xcorr("temporal", [], "r1 and r2"), _xcorr("temporal", None, "r1 or r2"),    # consistent
+     _xcorr("temporal_ordered", ["r1", "r2"], None), _xcorr("temporal", None, None), _xcorr("temporal", ["r1"], {"gte": 1}),
+     _xcorr("value_count", ["r1"], {"gte": 1, "field": "f"})])
+
+
+def cross_field():
+    """the documents of CROSS alone and with one further single-error mutation"""
+    out = []
+    for d in CROSS:
+        out.append((d, "cross"))
+        for p_, v_ in ERR1["corr"]:
+            m = copy.deepcopy(d)
+            cur = m
+            for q in p_[:-1]:
+                cur = cur[q]
+            cur[p_[-1]] = copy.deepcopy(v_)
+            out.append((m, "cross+1"))
+    return out
+
+
 def two_errors():
     out = []
     for kind, muts in ERR1.items():
@@ -439,6 +494,11 @@ def gen_cases(tier, seed, gen, effort):
         cases.append({"kind": kind, "doc": d, "mut": "two-errors"})
         cases.append({"kind": "collection", "doc": [d], "mut": "two-errors"})
         cases.append({"kind": "ruleset", "doc": [[dict(RULE_, title="valid one")], [d]], "mut": "ruleset:two-errors"})
+    for d, mut in cross_field():
+        cases.append({"kind": "corr", "doc": d, "mut": mut})
+        cases.append({"kind": "collection", "doc": [d], "mut": mut})
+        cases.append({"kind": "collection_refs", "doc": [dict(RULE_, name="r1"), d, dict(RULE_, name="r2", title="t2")], "mut": mut})
+        cases.append({"kind": "ruleset", "doc": [[d]], "mut": "ruleset:" + mut})
     for files, layout, mut in ruleset_layouts(rnd5, colls, (250 if not thorough else 2500) * effort):
         cases.append({"kind": "ruleset", "doc": files, "mut": mut, "layout": layout})
     return [dict({"kind": c["kind"], "show": repr(c["doc"])[:100], "mut": c["mut"], "doc": penc(c["doc"])}, **({"layout": c["layout"]} if "layout" in c else {})) for c in cases], False
@@ -579,7 +639,7 @@ def make_request(case, impl, gen):
 def judge(case, impl, reply):
     """The deciding judgement on the real code (`judge_impl`), then the model comparison."""
     v = judge_impl(case, impl)
-    if v.status == "violation" and not v.finding:
+    if v.status == "violation":
         return v
     if case["kind"] == "ruleset":
         v.tags = tuple(v.tags) + ("model:not-modelled",)
@@ -609,13 +669,12 @@ def judge_impl(case, impl):
         doc_s = f"load_ruleset({case['layout']['inputs']}) with the files {dict(zip(case['layout']['names'], doc))}"[:900]
         key = key + (repr(case["layout"]),)
     if impl["strict"].startswith("other:"):
-        fid = finding_for(impl["site"], impl["strict"])
         return Verdict("violation", f"strict loading of a {case['kind']} raised non-Sigma {impl['strict']} at {impl['site']}: {impl['strict_msg']} :: {case['mut']} :: {doc_s}",
-                       nt, key, finding=fid, tags=tuple(tags + [f"site:{impl['site']}"]))
+                       nt, key, tags=tuple(tags + [f"site:{impl['site']}"]))
     if impl["collect"] != "ok":
-        fid = finding_for(impl.get("csite", "?"), impl["collect"])
-        return Verdict("violation", f"collecting mode raised {impl['collect']} at {impl.get('csite')}: {impl.get('collect_msg')} :: {case['mut']} :: {doc_s}",
-                       nt, key, finding=fid, tags=tuple(tags + [f"site:{impl.get('csite')}"]))
+        return Verdict("violation", f"{case['kind']}: loading with collect_errors=True raised {impl['collect']} at {impl.get('csite')}: {impl.get('collect_msg')} "
+                                    f"(strict loading: {impl['strict']}) :: {case['mut']} :: {doc_s}",
+                       nt, key, tags=tuple(tags + [f"site:{impl.get('csite')}"]))
     strict_fails = impl["strict"] != "ok"
     if strict_fails != (impl["nerr"] > 0):
         return Verdict("violation", f"{case['kind']}: strict loading {'raises ' + impl['strict'] if strict_fails else 'succeeds'} but collecting mode has {impl['nerr']} errors :: {case['mut']} :: {doc_s}",
@@ -629,11 +688,3 @@ def judge_impl(case, impl):
         return Verdict("violation", f"{case['kind']}: strict raises {impl['strict']} ({impl['strict_msg']!r}) located in {impl['strict_src']} but the first collected error is located in "
                                     f"{impl.get('first_src')} (collected: {list(zip(impl['errs'], impl.get('srcs', [])))[:6]}) :: {case['mut']} :: {doc_s}", nt, key, tags=tuple(tags))
     return Verdict("ok", "", nt, key, tags=tuple(tags))
-
-
-KNOWN_SITES = {("correlations.py:__post_init__", "SigmaCorrelationRuleError"): "D8i",
-               ("correlations.py:__post_init__", "SigmaCorrelationConditionError"): "D8i"}
-
-
-def finding_for(site, outcome):
-    return KNOWN_SITES.get((site, outcome.split(":")[-1]))
